@@ -86,7 +86,7 @@ def validate(ctx, traces, tag="c04T"):
     wd = tlc.workdir(tag)
     # big traces first, round-robin over the shards
     order = sorted(traces, key=lambda t: -(len(t["specs"]) * 4 + len(t["ev"])))
-    nsh = min(tlc.NCPU, len(order))
+    nsh = min(max(1, tlc.NCPU // 2), len(order))
     shards = [[] for _ in range(nsh)]
     for k, t in enumerate(order):
         shards[k % nsh].append(t)
@@ -230,8 +230,8 @@ def run(ctx):
         if quick:
             run_models(ctx, ["DecTreeMC_quick.cfg", "DecTreeMC_quick2.cfg", "DecTreeMC_quick3.cfg", "DecTreeMC_any_quick.cfg"], workers=4)
         else:
-            run_models(ctx, ["DecTreeMC_thorough.cfg", "DecTreeMC_thorough2.cfg", "DecTreeMC_thorough3.cfg", "DecTreeMC_quick3.cfg",
-                             "DecTreeMC_any_thorough.cfg"], workers=4)
+            run_models(ctx, ["DecTreeMC_thorough.cfg", "DecTreeMC_thorough2.cfg", "DecTreeMC_thorough2b.cfg", "DecTreeMC_thorough3.cfg",
+                             "DecTreeMC_quick3.cfg", "DecTreeMC_any_thorough.cfg"], workers=4)
         for cfg, fault in (("DecTreeMC_dev.cfg", "NoAdjustInSetup"), ("DecTreeMC_dev2.cfg", "DropLastOfBigClass")):
             res = tlc.run("DecTree", cfg, expect_violation=True, tag="c04dev", workers=2, xmx="2g", env=c03.jvm_env(2))
             if not res.violation or "Inv" not in res.violation:
@@ -241,8 +241,8 @@ def run(ctx):
     t0 = time.time()
     # --- G ---------------------------------------------------------------------------------------
     gens = ([("DecTreeSim.cfg", "simulated7", "num=6", 9), ("DecTreeSim10.cfg", "simulated10", "num=3", 12)] if quick else
-            [("DecTreeGen_thorough.cfg", "exhaustive5", None, None), ("DecTreeSim.cfg", "simulated7", "num=120", 9),
-             ("DecTreeSim10.cfg", "simulated10", "num=60", 12)])
+            [("DecTreeGen_thorough.cfg", "exhaustive5", None, None), ("DecTreeSim.cfg", "simulated7", "num=400", 9),
+             ("DecTreeSim10.cfg", "simulated10", "num=200", 12)])
     for cfg, kind, sim, depth in gens:
         gen_and_replay(ctx, cfg, kind, simulate=sim, depth=depth)
         if failfast(ctx):
